@@ -111,6 +111,51 @@ func VxC22() {
 	case 10: // range expression and composite operands
 		op1 := vxBinOp()
 		st = &ast.ForPhraseStmt{ForPhrase: &ast.ForPhrase{Value: vxID("i"), X: &ast.RangeExpr{First: vxBin(op1, a, b), Last: vxBin(vxBinOp(), c, d)}}, Body: &ast.BlockStmt{}}
+	case 12: // x?:d and x? as operands of postfix operations and of a slice index
+		ew := func() ast.Expr { return &ast.ErrWrapExpr{X: &ast.CallExpr{Fun: a}, Tok: token.QUESTION, Default: b} }
+		q := func(x ast.Expr) ast.Expr { return &ast.ErrWrapExpr{X: x, Tok: token.QUESTION} }
+		switch vxConcrete(vxIntRange(0, 6)) {
+		case 0:
+			e = &ast.SelectorExpr{X: ew(), Sel: vxID("f")}
+		case 1:
+			e = &ast.CallExpr{Fun: ew(), Args: []ast.Expr{c}}
+		case 2:
+			e = &ast.ErrWrapExpr{X: ew(), Tok: token.NOT}
+		case 3:
+			e = &ast.IndexExpr{X: ew(), Index: c}
+		case 4:
+			e = &ast.SliceExpr{X: a, Low: q(&ast.CallExpr{Fun: b}), High: c}
+		case 5:
+			e = &ast.SliceExpr{X: a, Low: vxBin(vxBinOp(), d, q(&ast.CallExpr{Fun: b})), High: c}
+		default:
+			e = &ast.SliceExpr{X: a, Low: c, High: q(&ast.CallExpr{Fun: b})}
+		}
+	case 13: // a lambda as an operand
+		lam := &ast.LambdaExpr{Lhs: []*ast.Ident{vxID("x")}, Rhs: []ast.Expr{b}}
+		switch vxConcrete(vxIntRange(0, 2)) {
+		case 0:
+			e = vxBin(vxBinOp(), lam, c)
+		case 1:
+			e = vxBin(vxBinOp(), c, lam)
+		default:
+			e = &ast.CallExpr{Fun: &ast.LambdaExpr2{Lhs: []*ast.Ident{vxID("x")}, Body: &ast.BlockStmt{}}, Args: []ast.Expr{c}}
+		}
+	case 14: // command-style calls where the command syntax does not apply (open known findings)
+		if vxParam("KF_CMDSTYLE") == 1 {
+			vxReach("command-style-in-expression")
+			return
+		}
+		cmd := func(args ...ast.Expr) ast.Expr {
+			return &ast.CallExpr{Fun: vxID("f"), Args: args, NoParenEnd: token.Pos(1)}
+		}
+		switch vxConcrete(vxIntRange(0, 2)) {
+		case 0:
+			e = vxBin(vxBinOp(), cmd(a), b)
+		case 1:
+			e = &ast.CallExpr{Fun: vxID("g"), Args: []ast.Expr{cmd(a), b}}
+		default:
+			st = &ast.ExprStmt{X: cmd(vxUn(vxUnOp(), vxUn(vxUnOp(), a)))}
+		}
 	case 11: // three levels
 		op1, op2, op3 := vxBinOp(), vxBinOp(), vxBinOp()
 		e = vxBin(op1, a, vxBin(op2, b, vxBin(op3, c, d)))
